@@ -51,7 +51,26 @@ def stage_a_presentations(m, tier):
         out.append({"events": eo, "rename": True, "shift": 86399})
         for d in range(m):
             out.append({"events": eo, "dup": d})
+    # single events of all jobs in one flat stream, grouped by jobId by the
+    # tool itself (the -group-by-job path: cluster_events_by_job_id)
+    for flat in ("roundrobin", "reversed", "bytype"):
+        out.append({"flat": flat})
+        out.append({"flat": flat, "rename": True})
     return out
+
+
+def flat_cluster(pv_jobs, how):
+    """mix the events of all jobs into one stream and let the tool cluster
+    them by jobId"""
+    from tel2puml.pv_to_puml.data_ingestion import cluster_events_by_job_id
+    if how == "roundrobin":
+        flat = [e for tup in itertools.zip_longest(*pv_jobs) for e in tup if e]
+    elif how == "reversed":
+        flat = [e for j in pv_jobs for e in j][::-1]
+    else:
+        flat = sorted((e for j in pv_jobs for e in j),
+                      key=lambda e: (e["eventType"], e["eventId"]))
+    return list(cluster_events_by_job_id(flat).values())
 
 
 def stage_a(defn, tier):
@@ -63,8 +82,11 @@ def stage_a(defn, tier):
     orders = set()
     for spec in stage_a_presentations(len(jobs), tier):
         n += 1
-        pv = present.present(jobs, spec)
+        pv = present.present(jobs, {k: v for k, v in spec.items()
+                                    if k != "flat"})
         try:
+            if "flat" in spec:
+                pv = flat_cluster(pv, spec["flat"])
             events = impl_pv.ingest(pv, add_dummy_start=True)
             got = impl_pv.model_value(events)
             orders.add(tuple(events))
